@@ -1,7 +1,7 @@
 SPECIFICATION Spec
 CONSTANTS
   FCs = {0, 1, 2, 3, 4, 5, 6, 7, 8, 15, 16, 22, 23, 24, 43, 129, 255}
-  Addrs = {0, 1, 2, 5, 15, 16, 17, 65520, 65534, 65535}
+  Addrs = {0, 1, 2, 5, 15, 16, 17, 32, 33, 65520, 65534, 65535}
   Qtys = {0, 1, 2, 7, 8, 9, 15, 16, 17, 123, 124, 125, 126, 127, 128, 255, 1968, 1969, 2000, 2001, 2040, 2041, 2048, 32767, 32768, 65280, 65535}
   LenClasses = {"exact", "short", "long", "bcwrong", "empty"}
   MapNames = {"empty", "sparse", "dense4", "dense130", "dense300", "valid", "top", "coiltop"}
